@@ -248,6 +248,8 @@ def oracle (obs : List (List String × String)) : Verdict :=
                 let overl := calls.any fun a => calls.any fun b => !a.same b && a.inv < b.ret && b.inv < a.ret
                 { ok := true, nontrivial := true,
                   tags := tags ++ ["conc"] ++ (if overl then ["conc:overlapping"] else []) }
+              else if Spec.C09.lostWriteRacingDelete tr calls then
+                Verdict.fail s!"lost-write-racing-delete:op#{tr.length}" (tags ++ ["conc"])
               else Verdict.fail s!"non-linearizable-history:op#{tr.length}" (tags ++ ["conc"])
         | _, _ => Verdict.fail "bad-answer:history"
       | _ => Verdict.fail "bad-line:ops-after-conc"
